@@ -852,8 +852,7 @@ class ParserField:
             return True
         if not options.mode:
             return False
-        if callable(self.no_input):
-            return False
+        # (a callable no_input depends on the value, but the field's mode below still applies)
         if isinstance(self.no_input, (str, list, set, tuple)):
             if options.mode in self.no_input:
                 return True
